@@ -113,6 +113,7 @@ func vfSpawnCount() int   { return 0 }
 func vfRunSpawned(i int)  {}
 func vfDropSpawned()      {}
 func vfChanUnbounded()    {}
+func vfGoInline(on bool)  {}
 
 // --- file system: the executor has an in-memory model; natively a temporary directory is used ---
 
